@@ -234,15 +234,15 @@ func selfTestDER() error {
 		{"3006020101020102", true},
 		{"3006020100020100", true},
 		{"30070201010202 0080", true},
-		{"300702020001020102", false},   // leading zero octet on r
-		{"30060201ff020102", false},     // negative r
-		{"3007020200ff020102", true},    // 255
-		{"308106020101020102", false},   // long-form length below 128
-		{"30820006020101020102", false}, // long form with leading zero
+		{"300702020001020102", false},    // leading zero octet on r
+		{"30060201ff020102", false},      // negative r
+		{"3007020200ff020102", true},     // 255
+		{"308106020101020102", false},    // long-form length below 128
+		{"30820006020101020102", false},  // long form with leading zero
 		{"3080020101020102 0000", false}, // indefinite
-		{"300602010102010200", false},   // trailing byte after the SEQUENCE
-		{"300702010102010200", false},   // trailing byte inside the SEQUENCE
-		{"3003020101", false},           // one integer
+		{"300602010102010200", false},    // trailing byte after the SEQUENCE
+		{"300702010102010200", false},    // trailing byte inside the SEQUENCE
+		{"3003020101", false},            // one integer
 		{"3009020101020102020103", false},
 		{"3106020101020102", false}, // SET
 		{"1006020101020102", false}, // primitive SEQUENCE
